@@ -5,6 +5,11 @@ import json, os
 ROOT = os.path.dirname(os.path.dirname(os.path.abspath(__file__)))
 
 CHECKS = {
+ "C02": dict(
+  technique="runtime monitor: reference-model oracle (independent precedence-climbing parser over the pinned operator table) + metamorphic oracle (fully parenthesised text parses to the same tree modulo group nodes)",
+  text="Every ordered pair of 50 binary forms, 9 prefix and 4 suffix operators in 8 pair shapes, triples a B b B c B d (every tenth quick, all 125000 thorough), every unary operator around the middle operand of every binary pair, each in a spaced and a tight layout, and random deeper expressions with groups and nested expressions: the real parse tree must equal the reference parser's tree, and the fully parenthesised spelling must parse to the same tree once plain group nodes are removed.",
+  note="trusts the pinned operator table (DESIGN Appendix D); docs/src/precedence.md disagreements are not judged; rejected inputs are counted only",
+  design="DESIGN.md §5 C02, Appendix D"),
  "C03": dict(
   technique="runtime monitor: panic capture + logical-step budgets (verif_hooks tick counters, instruction/data budgets enforced at the data-trait boundary) over bounded-exhaustive token-class sequences, soups and scaling families; witness delta-minimisation",
   text="Every sequence of 33 token classes up to length 3 (4 thorough, 5 without fillers) with gap fillers, random token and character soups and 14 scaling families up to 4096 (32768) repetitions are pushed through lex, parse and build into both stores; the monitor demands Ok or Err from each stage, no unwinding, at most 64(n+4)^3 loop iterations per stage and at most 16(n+4) instructions / 64(n+4)+4L data cells for an n-token input.",
